@@ -17,6 +17,7 @@ Families
   corpus real LiteX cores at seeded parameterisations under random stimulus.
 """
 import copy
+import hashlib
 import json
 import random
 
@@ -433,8 +434,8 @@ def targets_of(st, acc):
 
 def plan(tier):
     if tier == "quick":
-        return [("frag", 3000), ("wild", 3000), ("exh", 400), ("mem", 1500), ("corpus", 720)]
-    return [("frag", 150000), ("wild", 150000), ("exh", 20000), ("mem", 80000), ("corpus", 36000)]
+        return [("frag", 3000), ("wild", 3000), ("exh", 400), ("mem", 1500), ("corpus", 720), ("mixed", 250)]
+    return [("frag", 150000), ("wild", 150000), ("exh", 20000), ("mem", 80000), ("corpus", 36000), ("mixed", 12000)]
 
 
 def gen_width(r):
@@ -455,6 +456,14 @@ def generate(family, rng, tier):
         return gen_mem(rng, tier)
     if family == "corpus":
         return gen_corpus(rng, tier)
+    if family == "mixed":
+        # designs of different kinds converted and simulated one after the other in one process (a build script that generates several
+        # cores): a design with specials (memories, MultiReg, instances of real cores) first, programs with sliced expressions, Case and
+        # If conditions after it - nothing a conversion leaves behind may show in the next one
+        seq = [gen_mem(rng, tier) if rng.random() < 0.5 else gen_corpus(rng, tier)]
+        for _ in range(rng.randint(1, 2)):
+            seq.append(gen_frag(rng, tier, wild=rng.random() < 0.3))
+        return {"family": "mixed", "seq": seq}
     raise ValueError(family)
 
 
@@ -761,6 +770,27 @@ def strip_banner(text):
 
 
 def run(scn):
+    if scn["family"] == "mixed":
+        out = None
+        for k, sub in enumerate(scn["seq"]):
+            r = run(sub)
+            for v in r.get("violations", []):
+                v["msg"] = "design %d of %d converted in this process (%s after %s): %s" % (k + 1, len(scn["seq"]), sub["family"], [x["family"] for x in scn["seq"][:k]], v["msg"])
+            if out is None:
+                out = r
+            else:
+                out["violations"] = out.get("violations", []) + r.get("violations", [])
+                out["digest"] = hashlib.sha256((str(out.get("digest")) + str(r.get("digest"))).encode()).hexdigest()[:16]
+                for key, val in r.get("stats", {}).items():
+                    if isinstance(val, (int, float)) and not isinstance(val, bool):
+                        out["stats"][key] = out["stats"].get(key, 0) + val
+                    elif isinstance(val, dict):
+                        d_ = out["stats"].setdefault(key, {})
+                        for a_, b_ in val.items():
+                            if isinstance(b_, (int, float)):
+                                d_[a_] = d_.get(a_, 0) + b_
+        out["stats"].setdefault("probes", {})["mixed_sequences"] = 1
+        return out
     boot.reset_globals()
     fam = scn["family"]
     if fam in ("frag", "exh", "wild"):
